@@ -66,4 +66,6 @@ extern const VhOp vh_bitmap_ops[];
 extern const VhOp vh_float_ops[];
 extern const VhOp vh_adaptive_ops[];
 extern const VhOp vh_mem_ops[];
+extern const VhOp vh_packed_ops[];
+extern const VhOp vh_dim_ops[];
 extern int vh_align; /* destination alignment offset 0..7 used by scalar ops */
